@@ -59,7 +59,8 @@ PROPS = {
                           "trials never exceeds max_trials (aborted runs included), retries are free, STOPPED once the budget is used "
                           "and no retry is pending, remaining = N - n, and the bound survives reload of any consistent disk. "
                           "The restart clause at tuner level (BaseTuner decides by its own state file whether to reload) is monitored directly "
-                          "on interrupted and restarted searches (`search` suite: finished trials known again, remaining_trials = N - n).",
+                          "on interrupted and restarted searches (`search` suite: finished trials known again, remaining_trials = N - n) and proved for the "
+                          "file-level model of a tuner's write sequence (tuner_restart_knows_finished_trials: every crash point, except the window of known finding F18).",
             "level_note": CORE_NOTE, "assumptions": []},
     "C03": {"suites": [ORACLE],
             "level_text": "Theorems (Ktm/Props/C03.lean): decision logic of end_trial/_retry stated outright (INVALID or NaN below the run "
@@ -75,7 +76,9 @@ PROPS = {
             "level_note": CORE_NOTE + " The algorithm state is persisted as a whole in the model; that each real oracle's get_state/set_state "
                           "really persists all of its progress (Hyperband brackets, grid position, seed state, tried set) is checked by the "
                           "suite: full state comparison after reload and a twin run (uninterrupted oracle with its running trials queued by "
-                          "hand) whose every later answer must equal the reloaded oracle's (random, grid, Hyperband; Bayesian: validity only).",
+                          "hand) whose every later answer must equal the reloaded oracle's (random, grid, Hyperband; Bayesian: validity only); for Hyperband "
+                          "additionally whole searches with a slow worker (an old bracket open while newer ones finish), saved at a random point: "
+                          "get_state() progress restored, every later answer and the final tables equal to the uninterrupted oracle's.",
             "assumptions": ["'saved' = explicit save() at an operation boundary; the files left by the operations themselves are C08"]},
     "C08": {"suites": [ORACLE_CRASH_ALL, ORACLE_CRASH, SEARCH_CRASH],
             "level_text": "Theorems (Ktm/Props/C08.lean): for EVERY scenario and EVERY crash index k the disk is consistent (DiskOK) with the "
@@ -87,7 +90,8 @@ PROPS = {
                           "end_order. A second crash is covered too (Ktm/PersistSecond.lean: every crash point of the requests a restarted process begins "
                           "with leaves a consistent disk; after the first trial handed out memory and disk are DiskOK again, so later crash points are "
                           "first-crash points), and injected by the suite (quick: after every third first crash; thorough: after every one). The "
-                          "tuner-level restart (tuner0.json) is part of the `search` suite (C19).",
+                          "tuner-level restart (tuner0.json) is part of the `search` suite: whole searches of every kind (Hyperband also with two sweeps; its budget "
+                          "is its schedule, counted on the trials) are crashed before every file write and restarted; every crash point is evaluated.",
             "assumptions": ["atomic whole-file writes", "durably recorded = listed in the on-disk end_order"]},
     "C04": {"suites": [ORACLE_SMALL, SYMMETRY],
             "level_text": "Theorems (Ktm/Props/C04.lean): get_best_trials = stable sort of the COMPLETED trials in the objective's direction "
@@ -123,7 +127,9 @@ PROPS = {
                           "always points at a worker that has not been told STOPPED and whose next step ends a trial). partial: the same bound with the "
                           "Hyperband schedule (finite iterations) or the finite grid in the place of max_trials is checked on the implementation by the "
                           "`liveness` / `hyperband` suites (fair random schedulers incl. all-fail patterns, empty initial spaces, not-tuned "
-                          "configurations, explicit bounds), not proved. " + CORE_NOTE,
+                          "configurations, trials that report a continuous entry, the process replaced by a fresh one in mid-search, explicit bounds, and a "
+                          "count of a finished Hyperband search against its schedule on the trials themselves: iterations x size(b,0) first-round trials "
+                          "per bracket), not proved. " + CORE_NOTE,
             "assumptions": ["fairness = every started trial is eventually ended (scheduler of the suite)"]},
     "C14": {"suites": [TRANSFORMS],
             "level_text": "Theorems (Ktm/Props/C14.lean), exact arithmetic: prob->index always in range, index->prob->index = id, the stepped linear "
@@ -140,8 +146,11 @@ PROPS = {
             "level_text": "Theorems (Ktm/Props/C18.lean): reports recorded per step with repeated steps merged, best value = optimum of the non-NaN "
                           "per-step means (NaN iff all NaN), best step attains it, histories sorted by step and a permutation of the records, "
                           "multi-objective = sum(min) - sum(max), per-execution best epoch = first epoch attaining the best, list objective = mean of "
-                          "per-execution bests.",
-            "level_note": "Values are NaN / +-inf / exact rationals with numpy mean / nanmin / nanmax semantics (assumed for numpy); the implementation's "
+                          "per-execution bests; at the level of Oracle.update_trial (Ktm/Track.lean) every metric is tracked under the direction of its own name "
+                          "(the objective's, a multi-objective's components included, else the name's, else min) for every sequence of reports, and a "
+                          "report's effect on a metric does not depend on the other keys or their order.",
+            "level_note": "infer_metric_direction is a parameter of the tracker model (its answers for the names used are read from the implementation). "
+                          "Values are NaN / +-inf / exact rationals with numpy mean / nanmin / nanmax semantics (assumed for numpy); the implementation's "
                           "doubles are compared with the exact rationals up to 1e-12. History curves in the conversion model are finite integers "
                           "(scaled). Keras History objects are constructed directly.",
             "assumptions": ["numpy mean/nanmin/nanmax semantics"]},
@@ -163,7 +172,9 @@ PROPS = {
             "level_note": CORE_NOTE + " The loop model is tied to BaseTuner.search by replaying every scripted search in the model (same populate "
                           "answers) and comparing the complete event trace and final statuses. The restart of a whole tuner (tuner0.json decides whether "
                           "anything is reloaded) is checked on the implementation by resuming interrupted searches and by crashing before every file "
-                          "write of whole searches; the window of known finding F18 is reported under C08.",
+                          "write of whole searches (all crash points of a search are evaluated; a trial left RUNNING for good is reported under C19 too); "
+                          "the file-level rule is modelled in Ktm/TunerFile.lean (Props C02) and compared with the real write sequence; the window of known "
+                          "finding F18 is reported under C08.",
             "assumptions": ["KeyboardInterrupt-like interrupts are modelled as BaseException raised by run_trial"]},
     "C05": {"suites": [SAMPLING, SAMPLING_SAMENAME, GRID, TRANSFORMS_SMALL],
             "level_text": "Theorems (Ktm/Props/C05.lean): an enumerated assignment binds an entry iff it is active under the assignment itself and to a "
@@ -200,7 +211,8 @@ PROPS = {
                           "the model's inputs are complete: every PRNG draw of the implementation is logged with its seed and must be the one the model predicts.",
             "level_note": "MT19937 (random.Random) is trusted; Bayesian GP / optimiser numerics are not modelled (same inputs => same outputs assumed for "
                           "sklearn / scipy with fixed random_state; checked by running scenarios twice and in a fresh interpreter with another "
-                          "PYTHONHASHSEED, and a third time with the process-wide generators drawn from and re-seeded between the requests).",
+                          "PYTHONHASHSEED, a third time with the process-wide generators drawn from and re-seeded between the requests, and by stopping a "
+                          "search and resuming it in a fresh interpreter with another PYTHONHASHSEED against the same search resumed in-process).",
             "assumptions": ["random.Random(seed) is deterministic"]},
     "C17": {"suites": [SYNC],
             "level_text": "Theorems (Ktm/Props/C17.lean), for any number of threads and every schedule over the wrapper's shared operations: mutual "
@@ -210,10 +222,13 @@ PROPS = {
                           "schedules are proved by decide.",
             "level_note": "The model is at shared-operation granularity (owner read / acquire / owner write / body read / body write / owner clear / "
                           "release; lock lookup and creation under the guard as one atomic step); CPython bytecode-level preemption inside one of "
-                          "these operations and OS scheduling are not modelled. The tie to the code is a deterministic cooperative scheduler over "
+                          "these operations and OS scheduling are not modelled. That the real oracle methods touch shared state only inside the critical "
+                          "section is decided on real grid / Hyperband / random oracles (tracked containers make every access outside it a "
+                          "scheduling point, an adversary runs another thread's whole call there, results and final state must equal some "
+                          "sequential order of the calls); a read ahead of the lock (defect F23, repaired) is modelled in Ktm/SyncPre.lean. The tie to the code is a deterministic cooperative scheduler over "
                           "real threads running the real `synchronized` (module attributes of keras_tuner.engine.oracle replaced from the harness: "
                           "threading, THREADS, LOCKS, LOCKS_GUARD): every executed schedule is replayed on the model and all intermediate states "
-                          "compared. Independence of different oracles is checked by a scripted scenario, not proved (the model has one oracle).",
+                          "compared. Independence of different oracles: Ktm/SyncMulti.lean (several oracles + guard) and scripted scenarios.",
             "assumptions": ["granularity of preemption = the wrapper's shared operations"]},
     "C13": {"suites": [PROGRAMS],
             "level_text": "Theorems (Ktm/Props/C13.lean): the lookup rules stated outright (known+active => assigned value, known+inactive => None, "
@@ -245,6 +260,7 @@ PROPS = {
                           "list and the chief's own state are compared.",
             "level_note": "partial: the layer's transparency is established by differential runs (direct vs. remote), the theorems cover the codec's ordering "
                           "and typing and the exit condition only; float32 rounding and gRPC itself are not modelled (the transport is in-process but "
-                          "serialises every message). Known finding F19 (Trial.message has no proto field).",
+                          "serialises every message); every worker has an OracleClient of its own on the same chief and every client's view of the search space is "
+                          "compared after every end_trial. Known finding F19 (Trial.message has no proto field).",
             "assumptions": ["protobuf wire encoding"]},
 }
